@@ -122,6 +122,9 @@ def spectrum(true_spec, f_lo, f_hi, ppd, noise=0.0, rng=None):
 # identifiable families (recovery clause)
 # ------------------------------------------------------------------------------------------------
 FAMILIES = ["R(RC)", "R(RQ)", "R(RC)(RC)", "R(RC)(RQ)", "R(C[RW])", "RL(RQ)"]
+# families in which a parameter that is fixed BY DEFAULT (the Warburg exponent n) has been released by the user and was
+# generated away from its default 0.5
+RELEASED_FAMILIES = ["R(C[RW])/n-released", "R(C[RWo])/n-released"]
 
 
 def _logu(rng, lo, hi):
@@ -205,6 +208,23 @@ def _gen_true(rng, family, wide=False):
         k = _logu(rng, 0.5, 3.0)
         Y = 1.0 / (k * r1 * math.sqrt(2 * math.pi * f_lo))
         spec = ["S", E("R", R=R()), ["P", E("C", C=t1 / r1), ["S", E("R", R=r1), E("W", Y=[Y, "default", "default", False], n=[0.5, "default", "default", True])]]]
+    elif family == "R(C[RW])/n-released":
+        (t1,) = _taus(rng, 1, f_lo * 10.0 ** (span / 2), f_hi, margin=0.8)
+        r1 = R()
+        k = _logu(rng, 0.5, 3.0)
+        nw = float(rng.choice([rng.uniform(0.35, 0.45), rng.uniform(0.55, 0.65)]))
+        Y = 1.0 / (k * r1 * (2 * math.pi * f_lo) ** nw)
+        spec = ["S", E("R", R=R()), ["P", E("C", C=t1 / r1), ["S", E("R", R=r1), E("W", Y=Y, n=nw)]]]
+    elif family == "R(C[RWo])/n-released":
+        # finite-length (blocking) Warburg: transition 1/(2 pi B) 1-2 decades above f_lo, |Z_W| there comparable to R_ct
+        (t1,) = _taus(rng, 1, f_lo * 10.0 ** (span / 2), f_hi, margin=0.8)
+        r1 = R()
+        k = _logu(rng, 0.5, 3.0)
+        nw = float(rng.choice([rng.uniform(0.35, 0.45), rng.uniform(0.55, 0.65)]))
+        f_b = f_lo * 10.0 ** rng.uniform(1.0, 2.0)
+        B = 1.0 / (2 * math.pi * f_b)
+        Y = (1.0 / (k * r1)) ** (1.0 / nw) / (2 * math.pi * f_b)
+        spec = ["S", E("R", R=R()), ["P", E("C", C=t1 / r1), ["S", E("R", R=r1), E("Wo", Y=Y, B=B, n=nw)]]]
     elif family == "RL(RQ)":
         (t1,) = _taus(rng, 1, f_lo, f_hi, margin=1.5, top_margin=2.5)
         r0, r1, n1 = R(), R(), n()
